@@ -30,28 +30,35 @@ def cnt(conds):
     return z3.Sum([z3.If(c, 1, 0) for c in conds])
 
 
-def declare_vectors(ctx, n, K, pins=None, names=('x', 'y')):
+def declare_vectors(ctx, n, K, pins=None, names=('x', 'y'), vals=None):
     X = [z3.Int(f'{names[0]}{i}') for i in range(n)]
     Y = [z3.Int(f'{names[1]}{i}') for i in range(n)]
     for v in X + Y:
-        ctx.assume(v >= 0, v < K)
+        if vals is None:
+            ctx.assume(v >= 0, v < K)
+        else:
+            ctx.assume(z3.Or([v == c for c in vals]))
     for k, v in (pins or {}).items():
         ctx.assume(z3.Int(k) == v)
     return X, Y
 
 
-def arrs(X, Y, K):
+def arrs(X, Y, K, vals=None):
+    if vals is not None:
+        lo, hi = min(vals), max(vals)
+        return (xnp.Arr([SInt(e, lo, hi, vals) for e in X], 'int32'), xnp.Arr([SInt(e, lo, hi, vals) for e in Y], 'int32'))
     Xa = xnp.Arr([SInt(e, 0, K - 1) for e in X], 'int32')
     Ya = xnp.Arr([SInt(e, 0, K - 1) for e in Y], 'int32')
     return Xa, Ya
 
 
-def ref_mi(Xe, Ye, n, K):
+def ref_mi(Xe, Ye, n, K, vals=None):
     """plug-in Shannon MI in nats: sum_{x,y} (n_xy/n) (ln n_xy + ln n - ln n_x - ln n_y), as an If-table over the counts"""
     tot = z3.RealVal(0)
-    for x in range(K):
+    dom = list(vals) if vals is not None else list(range(K))
+    for x in dom:
         nx = cnt(Xe[i] == x for i in range(n))
-        for y in range(K):
+        for y in dom:
             nxy = cnt(z3.And(Xe[i] == x, Ye[i] == y) for i in range(n))
             ny = cnt(Ye[i] == y for i in range(n))
             e = z3.RealVal(0)
@@ -170,4 +177,6 @@ def c_corrected(Y, X):
 
 
 def close(a, b, tol=2e-4):
+    if not (math.isfinite(a) and math.isfinite(b)):
+        return False        # a non-finite score is never "equal up to rounding" (the statements speak of finite scores)
     return abs(a - b) <= tol + tol * max(abs(a), abs(b))
